@@ -66,6 +66,7 @@ def loop_carried(ctx, rr):
             continue
         cfg = ctx.cfg(u)
         params = set(u.params)
+        rd = None
         # where is every name assigned
         sites = {}
         for n in cfg.nodes:
@@ -80,11 +81,27 @@ def loop_carried(ctx, rr):
             body_nodes = [n for n in cfg.nodes if n is not head and n.ast is not None and n.kind not in ('entry', 'exit', 'raise_exit')
                           and any(_inside(P, n.ast, s) for s in lp.body)]
             body_ids = {n.id for n in body_nodes}
+            body_asts = {id(n.ast) for n in body_nodes}
+            # candidates: bound inside the body, and no binding reaches the loop from outside (bindings after the loop, or in
+            # another loop further down, do not initialise it)
+            if rd is None:
+                from ..dataflow import reaching_defs
+                rd = reaching_defs(u, cfg)
+            outside = {}
+            for pnode, lab in head.pred:
+                if pnode.id in body_ids or pnode.id not in rd:
+                    continue
+                st = dict(rd[pnode.id])
+                for v in names_assigned(pnode):
+                    st[v] = frozenset([pnode.ast])
+                for v, ds in st.items():
+                    # a binding made by this very loop in an earlier round of an enclosing loop is not an initialisation
+                    outside.setdefault(v, set()).update(d for d in ds if d == 'param' or id(d) not in body_asts)
             cand = set()
             for v, ns in sites.items():
                 if v in params:
                     continue
-                if all(n.id in body_ids for n in ns):
+                if any(n.id in body_ids for n in ns) and not outside.get(v):
                     cand.add(v)
             if isinstance(lp, ast.For):
                 cand -= set(names_in_target(lp.target))
@@ -368,6 +385,40 @@ def encoded(ctx, rr):
                         rr.fail(ctx.finding('R-ENCODED', u, c, '%s hands `%s` to LRUTrie.%s without __encode() on some path (raw: %s): a str LRU never matches the stored '
                                             'byte stems, so the lookup / walk silently finds nothing' % (u.qual, ast.unparse(arg)[:40], fu.name, sorted(raw)),
                                             stmt='%s: raw %s -> LRUTrie.%s' % (u.qual, sorted(raw), fu.name)))
+    # a raw LRU is not compared with anything either: values read back from the trie are bytes, `bytes == str` is always False
+    ncmp = 0
+    for u in units:
+        enc_args = set()
+        for c in P.own(u, ast.Call):
+            if _is_encode_call(c):
+                for a in c.args:
+                    for x in ast.walk(a):
+                        if isinstance(x, ast.Name):
+                            enc_args.add(x.id)
+        if not enc_args:
+            continue
+        cfg = ctx.cfg(u)
+        IN = results[u]
+        for n in cfg.nodes:
+            if n.id not in IN or n.kind == 'for_next':
+                continue
+            root = node_root(n)
+            if root is None:
+                continue
+            for cmp_ in ast.walk(root):
+                if not isinstance(cmp_, ast.Compare) or P.owner_of(u.node, cmp_) is not u.node:
+                    continue
+                operands = [cmp_.left] + list(cmp_.comparators)
+                if any(isinstance(o, ast.Constant) for o in operands) or any(isinstance(op, (ast.Is, ast.IsNot)) for op in cmp_.ops):
+                    continue
+                raws = [o.id for o in operands if isinstance(o, ast.Name) and o.id in IN[n.id] and o.id in enc_args]
+                ncmp += 1
+                if raws:
+                    rr.ob(ctx.where(u, cmp_), '%s compares only encoded LRUs' % u.qual, ok=False)
+                    rr.fail(ctx.finding('R-ENCODED', u, cmp_, '%s compares the raw request value `%s` (`%s`): for a text LRU the comparison with bytes read back from the trie is '
+                                        'always False, so e.g. a self-link is not recognised as internal' % (u.qual, raws[0], ast.unparse(cmp_)[:50]),
+                                        stmt='%s: raw %s compared' % (u.qual, raws[0])))
+    rr.info['comparisons_checked'] = ncmp
     rr.require(nsites, 15, 'LRU arguments handed to the trie')
     rr.info['private_helpers_with_raw_params'] = {t.qual: sorted(v) for t, v in raw_params.items() if is_private(t) and v}
 
@@ -777,3 +828,80 @@ def node_alias(ctx, rr):
                 rr.fail(ctx.finding('R-NODE-ALIAS', u, x, '%s stores the traversal node object handed out by `%s`: the walk re-reads that one object for every block, so every stored '
                                     'reference ends up describing the last block visited' % (u.qual, ast.unparse(lp.iter)[:50])))
     rr.require(n, 15, 'loops over a trie walk that hand out the traversal node')
+
+
+# ------------------------------------------------------------------------------------------------ R-EVERY-ITEM
+@rule('R-EVERY-ITEM')
+def every_item(ctx, rr):
+    """the batch writers register every item they are given: in every round of a loop that submits pages, each
+    __add_page() site of the loop is executed, or skipped only because its own "already seen in this batch" test says so"""
+    P = ctx.P
+    target = P.method('Traph', '__add_page')
+    n = 0
+    for fname in ('add_pages', 'add_links', 'index_batch_crawl_iter'):
+        u = P.method('Traph', fname)
+        cfg = ctx.cfg(u)
+        calls = [c for c in P.own(u, ast.Call) if target in P.targets(c)]
+        if not calls:
+            raise AnalysisError('R-EVERY-ITEM: %s no longer submits pages through __add_page' % u.qual)
+        for c in calls:
+            # nearest enclosing loop
+            lp = P.parent.get(id(c))
+            guard = None
+
+            def membership(t):
+                """(is a membership test, it is true when the item is NEW)"""
+                neg = False
+                while isinstance(t, ast.UnaryOp) and isinstance(t.op, ast.Not):
+                    neg = not neg
+                    t = t.operand
+                if isinstance(t, ast.Compare) and len(t.ops) == 1 and isinstance(t.ops[0], (ast.NotIn, ast.In)):
+                    return True, isinstance(t.ops[0], ast.NotIn) != neg
+                return False, None
+            while lp is not None and not isinstance(lp, (ast.For, ast.While)):
+                if guard is None and isinstance(lp, ast.If) and membership(lp.test)[0]:
+                    guard = lp
+                lp = P.parent.get(id(lp))
+            if lp is None:
+                raise AnalysisError('R-EVERY-ITEM: %s submits a page outside any loop' % u.qual)
+            n += 1
+            head = [x for x in cfg.nodes if x.loop is lp][0]
+            gtest = guard.test if guard is not None else None
+            seen_branch = None
+            if gtest is not None:
+                new_when_true = membership(gtest)[1]
+                in_body = any(_inside(P, c, s_) for s_ in guard.body)
+                in_else = any(_inside(P, c, s_) for s_ in guard.orelse)
+                if in_body and new_when_true:
+                    seen_branch = 'F'
+                elif in_else and not new_when_true:
+                    seen_branch = 'T'
+
+            def tr(nd, st):
+                if nd is head:
+                    return False
+                root = node_root(nd)
+                if root is not None and any(x is c for x in ast.walk(root)):
+                    return True
+                return st
+
+            def refine(lab, st):
+                if gtest is not None and seen_branch is not None and lab[0] == seen_branch and lab[1] is gtest:
+                    return True
+                return st
+            IN = solve_forward(cfg, False, tr, refine, lambda a, b: a and b)
+            bad = None
+            for pnode, lab in head.pred:
+                if pnode.id not in IN or not (pnode.ast is not None and any(_inside(P, pnode.ast, s_) for s_ in lp.body)):
+                    continue
+                out = tr(pnode, IN[pnode.id])
+                if lab is not None and lab[0] in ('T', 'F'):
+                    out = refine(lab, out)
+                if not out:
+                    bad = pnode
+            rr.ob(ctx.where(u, c), '%s: every round of the loop at line %d reaches `%s` (or its already-seen test)' % (u.qual, lp.lineno, ast.unparse(c)[:50]), ok=bad is None)
+            if bad is not None:
+                rr.fail(ctx.finding('R-EVERY-ITEM', u, bad.ast if isinstance(bad.ast, ast.AST) else c,
+                                    '%s can finish a round of its batch loop without submitting the item to `%s`: the page (source of an empty batch entry, already existing '
+                                    'inner node, ...) is never registered / flagged' % (u.qual, ast.unparse(c)[:50]), stmt='%s: item skipped before %s' % (u.qual, ast.unparse(c.args[0])[:30] if c.args else '?')))
+    rr.require(n, 3, '__add_page sites in batch loops')
